@@ -374,6 +374,10 @@ UNIT = {
         ensures tail_post(expression, env, r),
         decreases expression,"""},
              "apply_procedure": {"props": ["C02", "C08", "C07"],
+                 # rule B1: the locals the invariant mentions are read from the code
+                 "bind": {"CUR": (r"let mut (\w+) = None;", "current_procedure"),
+                          "TP": (r"let \((\w+), \w+\) = Self::eval_procedure_call\(", "tail_procedure"),
+                          "TA": (r"let \(\w+, (\w+)\) = Self::eval_procedure_call\(", "tail_args")},
                  "attrs": "#[verifier::exec_allows_no_decreases_clause]\n#[verifier::loop_isolation(false)]",
                  "sig_rewrites": [("S1", r"-> Result<Value<R>>$", "-> (r: Result<Value<R>>)")],
                  "rewrites": [
@@ -385,13 +389,13 @@ UNIT = {
                  "body_start": "        let ghost args0 = args;\n        let ghost mut last_call: Option<(Procedure<R>, ArgVec<R>)> = None;\n"
                                "        proof { axiom_builtin_table::<R>(); }",
                  # (e) the next turn of the trampoline runs EXACTLY the procedure and the operands the pending tail call evaluated to
-                 "inserts": [(r"(?s)let \(tail_procedure, tail_args\) = Self::eval_procedure_call\(.*?\)\?;",
-                              "                            proof { last_call = Some((tail_procedure, tail_args)); }")],
+                 "inserts": [(r"(?s)let \(${TP}, ${TA}\) = Self::eval_procedure_call\(.*?\)\?;",
+                              "                            proof { last_call = Some((${TP}, ${TA})); }")],
                  "loops": {1: {"expect_kw": "loop", "invariant": """            invariant
-                current_procedure is None ==> args == args0 && last_call is None,
-                current_procedure is Some ==> arity_ok(params_of(*initial_procedure), args0.spec_len()),
+                ${CUR} is None ==> args == args0 && last_call is None,
+                ${CUR} is Some ==> arity_ok(params_of(*initial_procedure), args0.spec_len()),
                 // (e) rebinding: what is applied next is what the last tail call evaluated to -- never a stale procedure or stale operands
-                last_call matches Some(lc) ==> current_procedure == Some(lc.0) && args == lc.1,"""}},
+                last_call matches Some(lc) ==> ${CUR} == Some(lc.0) && args == lc.1,"""}},
                  "contract": """        requires entry(*initial_procedure, args),
         ensures
             // (g) a procedure whose parameter list does not accept the argument count is an ArgumentMissMatch error
